@@ -16,6 +16,7 @@ import Pixman.Props.BridgesExtent
 import Pixman.Props.BridgesGlyph
 import Pixman.Props.BridgesRegion
 import Pixman.Props.BridgesRegionO
+import Pixman.Props.BridgesRegionV
 import Pixman.Lemmas.CSemFacts
 /-!
   Bridges: regenerated C functions (`Pixman.Gen.CFuncs`, rewritten from /repo's working tree on every
